@@ -31,6 +31,7 @@ func main() {
 	record := flag.String("record", "", "finding id to record cases for (maintainer)")
 	recordRe := flag.String("record-re", ".", "regexp on case\\tkind for -record")
 	wall := flag.Float64("wall", 0, "wall seconds so far (aggregate)")
+	schedule := flag.String("schedule", "", "C18 replay: the schedule (list of choices) to execute")
 	deadline := flag.Float64("deadline", 0, "seconds after which the worker stops (exhaustive:false)")
 	extra := flag.String("extra", "", "json file with extra coverage keys (aggregate)")
 	extraFail := flag.String("extra-failures", "", "json file with failures found by an auxiliary pass (aggregate)")
@@ -84,6 +85,12 @@ func main() {
 	r.Seed = seed
 	r.Config = *config
 	r.ReplayCase = *replay
+	if *schedule != "" {
+		for _, f := range strings.FieldsFunc(*schedule, func(c rune) bool { return c == ',' || c == '[' || c == ']' || c == ' ' }) {
+			n, _ := strconv.Atoi(f)
+			r.ReplaySchedule = append(r.ReplaySchedule, n)
+		}
+	}
 	if *config != "" && strings.HasSuffix(r.ReplayCase, "|cfg="+*config) {
 		r.ReplayCase = strings.TrimSuffix(r.ReplayCase, "|cfg="+*config)
 	}
